@@ -375,7 +375,11 @@ def LayoutBut (src : Str) (a b : Nat) (bodies : List Span) : Prop :=
 /-- **`TokGaps`**: between two tokens it delivers, and before the first, the tokenizer skips
     only layout (blanks, newlines, comments, line continuations) and here-document bodies it
     gathered; a NEWLINE token is a newline character (possibly extended over gathered bodies).
-    A property of the ghost invariant `TL` of `TokLog` -- a statement about tokenizer.py only. -/
+    A property of the ghost invariant `TL` of `TokLog` -- a statement about tokenizer.py only.
+    (This form is STATED only.  A corrected form -- per position of the tokenizer's line, for
+    consecutive tokens other than EOF -- is PROVED for the real tokenizer: `TokGapsC`, `tokGapsC`,
+    and the tokenizer theorem `tokGaps_next` behind it, in `Props/C05/TokGapsProof.lean`; the
+    character-level half of C05 built on it: `Props/C05Chars.lean`.) -/
 structure TokGaps (TL : List Token → Nat → Nat → Local → Env → Prop) : Prop where
   first : ∀ t ts len f l e, TL (t :: ts) len f l e →
     LayoutBut (lineOf l e) 0 t.lexpos (bodiesOf l)
